@@ -542,7 +542,8 @@ def get_item(eng, o, idx, node):
         if model is not None:
             return model(eng.ctx, o, idx)
         f = V.uf("getitem", V.vsort(), V.vsort(), z3.IntSort(), V.vsort())
-        return SOpq(f(o.t, _box(eng, idx).t, z3.IntVal(eng.ghost.get("heapver", 0))))
+        ver = 0 if getattr(eng.contract, "stable_getitem", False) else eng.ghost.get("heapver", 0)
+        return SOpq(f(o.t, _box(eng, idx).t, z3.IntVal(ver)))
     if isinstance(o, PyObjV):
         return eng.from_python(o.obj[idx])
     if isinstance(o, ExtRef):
